@@ -344,37 +344,63 @@ fn names(v: &Value) -> Vec<String> {
     v.as_array().map(|a| a.iter().map(|x| x.as_str().unwrap().to_string()).collect()).unwrap_or_default()
 }
 
+/// Replay one TLC history on a fresh world; deterministic per history index.
+fn replay_one(ids: &[String], addrs: &[String], row: &Value, index: u64) -> Value {
+    let mut rng = Rng::new(vh_core::seed_from_env().wrapping_mul(1_000_003).wrapping_add(index));
+    let mut world = World::new(ids, addrs);
+    let mut out = vec![];
+    for st in row["h"].as_array().map(|a| a.as_slice()).unwrap_or(&[]) {
+        let ev = &st["ev"];
+        let r = catch(|| {
+            let o = world.step(ev, &mut rng);
+            let snap = world.snapshot();
+            (o, snap)
+        });
+        match r {
+            Ok((o, snap)) => out.push(json!({"ev": o, "snap": snap})),
+            Err(p) => {
+                out.push(json!({"ev": {"kind": "panic", "what": p, "during": ev}, "snap": Value::Null}));
+                break;
+            }
+        }
+    }
+    json!({"steps": out})
+}
+
 fn replay(inp: &str, outp: &str) {
     let rows = read_ndjson(inp);
     let mut w = NdjsonWriter::create(outp);
-    let mut rng = Rng::from_env();
     let (mut ids, mut addrs) = (vec![], vec![]);
+    let mut hist = vec![];
     for row in rows {
         if row.get("ev").and_then(|v| v.as_str()) == Some("meta") {
             ids = names(&row["ids"]);
             addrs = names(&row["addrs"]);
-            continue;
+        } else {
+            hist.push(row);
         }
-        let mut world = World::new(&ids, &addrs);
-        let mut out = vec![];
-        for st in row["h"].as_array().unwrap() {
-            let ev = &st["ev"];
-            let asked_before = ();
-            let _ = asked_before;
-            let r = catch(|| {
-                let o = world.step(ev, &mut rng);
-                let snap = world.snapshot();
-                (o, snap)
-            });
-            match r {
-                Ok((o, snap)) => out.push(json!({"ev": o, "snap": snap})),
-                Err(p) => {
-                    out.push(json!({"ev": {"kind": "panic", "what": p, "during": ev}, "snap": Value::Null}));
-                    break;
-                }
-            }
+    }
+    // histories are independent: replay them on a few threads, write the results in input order
+    let nthreads = std::thread::available_parallelism().map(|n| n.get()).unwrap_or(4).clamp(1, 8);
+    let chunk = hist.len().div_ceil(nthreads).max(1);
+    let results: Vec<Vec<Value>> = std::thread::scope(|sc| {
+        let handles: Vec<_> = hist
+            .chunks(chunk)
+            .enumerate()
+            .map(|(ci, part)| {
+                let (ids, addrs) = (&ids, &addrs);
+                sc.spawn(move || {
+                    vh_core::quiet_panics();
+                    part.iter().enumerate().map(|(j, row)| replay_one(ids, addrs, row, (ci * chunk + j) as u64)).collect::<Vec<Value>>()
+                })
+            })
+            .collect();
+        handles.into_iter().map(|h| h.join().expect("replay thread")).collect()
+    });
+    for part in results {
+        for r in part {
+            w.write(&r);
         }
-        w.write(&json!({"steps": out}));
     }
     w.finish();
 }
